@@ -138,6 +138,23 @@ Theorem C01_mad_binary64_error : forall p s xs M, mad_new FOps p = Ok s -> (p <=
           (Wiring.mad_outs FOps s xs) (prefixes_from [] xs).
 Proof. exact mad_float_error. Qed.
 
+(* WeightedMovingAverage on binary64: NOT within tau (known finding K7) — what is PROVED is the true order of its error: at most
+   quadratic in the number of inputs. The flat running sum errs linearly in t (as SimpleMovingAverage does), and that error is fed into
+   the weighted running sum at every step. Periods below 2^26, up to 2^47 inputs, 1 <= M <= 2^400; the denominator n(n+1)/2 is exact. *)
+From TA Require Import Proofs.XWma Proofs.FloatWma.
+Theorem C01_wma_binary64_error : forall p s xs M, wma_new FOps p = Ok s -> (p < 67108864)%N ->
+  (1 <= M)%R -> (M <= bpow radix2 400)%R -> Forall (okin M) xs -> (INR (length xs) * u <= / 64)%R ->
+  Forall2 (fun o hh => finF o /\ (Rabs (FR o - wmean (map FR (lastn (N.to_nat p) hh))) <= wma_bound M (N.to_nat p) (length hh))%R)
+          (res_outs (wma_next FOps) s xs) (prefixes_from [] xs).
+Proof. exact wma_float_error. Qed.
+Theorem C01_wma_bound_def : forall M p T, wma_bound M p T =
+  ((4 * INR T * INR T * (u * (INR p + 1) * M + eta) + 6 * INR T * (u * (INR p * (INR p + 1) / 2 + INR p) * M + eta))
+   / (INR (Nat.min T p) * (INR (Nat.min T p) + 1) / 2) * (1 + u) + u * M + eta)%R.
+Proof. reflexivity. Qed.
+Theorem C01_wma_bound_full_window : forall M p T, (1 <= M)%R -> (1 <= p <= T)%nat ->
+  (wma_bound M p T <= (9 * INR T * INR T / INR p + 13 * INR T + 1) * u * M + (5 * INR T * INR T + 7 * INR T + 1) * eta)%R.
+Proof. exact wma_bound_full. Qed.
+
 From Coq Require Import List Floats.
 From TA Require Import Generic FloatInst XQ Run2 Par.Hom Par.Var Par.Oracle.
 (* the T2 oracle (exact rational run, evaluated by the checks) is the image of the exact real run these
